@@ -10,7 +10,7 @@ for id in $IDS; do
     [ -f "$p" ] || continue
     case $p in seeded/*) kind=seeded; name=$(basename $(dirname $p));; *) kind=mutant; name=$(basename $p .patch);; esac
     t0=$(date +%s)
-    out=$(tools/mutant.sh $id $p quick 2>&1)
+    out=$(KEEP_REPLAYS=/tmp/mutant-replays/$id/$name tools/mutant.sh $id $p quick 2>&1)
     t1=$(date +%s)
     verdict=$(echo "$out" | tail -1 | grep -o 'KILLED\|SURVIVED\|PATCH-FAILED' | head -1)
     [ -z "$verdict" ] && verdict=$(echo "$out" | grep -o 'PATCH-FAILED' | head -1)
